@@ -17,12 +17,30 @@ def known_sig(t, l, clause):
     """Situation attributes used to match known findings narrowly (see known_findings.jsonl)."""
     out = {}
     # a started / finished join re-armed (set back to WAITING) by Task.defer on a later trigger
+    # (a join with a retry policy that its own completion step sets back to WAITING is the retry policy at work, not this)
     rearmed = False
+    retry_waits = {}        # join sid -> (time its retry policy set it WAITING, delay)
+    early = False
     for s in t['steps'][:l]:
-        for wr in s['ev'].get('writes', []):
+        ws = s['ev'].get('writes', [])
+        for wr in ws:
             if wr['kind'] == 'tk' and wr['to'] == 'WAITING' and wr['frm'] in ('RUNNING', 'SUCCESS', 'ERROR', 'DELAYED'):
-                rearmed = True
+                nm = wr['sid'].split('/')[-1].split('#')[0]
+                by_retry = t['prog']['tasks'].get(nm, {}).get('retry', 0) > 0 and \
+                    any(w2['kind'] == 'tk' and w2['sid'] == wr['sid'] and w2['to'] in ('ERROR', 'SUCCESS') for w2 in ws)
+                if by_retry:
+                    retry_waits[wr['sid']] = (s['ev'].get('now', 0), t['prog']['tasks'][nm].get('delay', 0))
+                else:
+                    rearmed = True
+            if wr['kind'] == 'tk' and wr['frm'] == 'WAITING' and wr['to'] == 'RUNNING' and wr['sid'] in retry_waits \
+                    and s['ev']['what'] == '_refresh_task_state':
+                t0, dl = retry_waits.pop(wr['sid'])
+                if s['ev'].get('now', 0) < t0 + dl:
+                    early = True
     out['join_rearmed'] = rearmed
+    # a join with a retry policy waits for its next attempt in WAITING with a delayed refresh job; an older refresh job
+    # (one is scheduled per completing inbound task) that runs in between starts the next attempt before the delay is over
+    out['retry_join_woken_by_stale_refresh'] = early
     # a result delivered late (after the timeout policy failed the attempt) completes a task that is DELAYED for its retry
     out['late_result_completed_delayed_task'] = any(
         wr['kind'] == 'tk' and wr['frm'] == 'DELAYED' and wr['to'] in ('SUCCESS', 'ERROR') and st['ev']['what'] == 'on_action_complete'
@@ -36,6 +54,32 @@ def known_sig(t, l, clause):
                 first.setdefault(x['sid'], s['ev']['what'])
         waiting = [x for x in t['steps'][l - 1]['obs']['tk'] if x['state'] == 'WAITING' and x['isJoin']]
         out['waiting_join_created_by_resume'] = any(first.get(x['sid']) == 'resume' for x in waiting)
+        # ... or whose existing (finished) row was set back to WAITING by the resume step itself
+        armed = {}
+        for s in t['steps'][:l]:
+            for wr in s['ev'].get('writes', []):
+                if wr['kind'] == 'tk' and wr['to'] == 'WAITING':
+                    armed[wr['sid']] = s['ev']['what']
+        out['waiting_join_rearmed_by_resume'] = any(armed.get(x['sid']) == 'resume' for x in waiting)
+        # resume found only engine commands without effect (noop) to dispatch: every task is complete, nothing checks completion
+        o = t['steps'][l - 1]['obs']
+        root = [w for w in o['wf'] if w['sid'] == 'r']
+        rs = [k for k, s in enumerate(t['steps'][:l]) if s['ev']['kind'] == 'op' and s['ev']['what'] == 'resume']
+        noop_only = False
+        if root and root[0]['state'] == 'RUNNING' and rs and all(x['state'] in ('SUCCESS', 'ERROR', 'CANCELLED') for x in o['tk'] if x['wf'] == 'r'):
+            k0 = rs[-1]
+            same = [x['sid'] for x in t['steps'][k0 - 1]['obs']['tk']] == [x['sid'] for x in o['tk']] if k0 >= 1 else False
+            fired_noop = False
+            for x in o['tk']:
+                d = t['prog']['tasks'].get(x['name'])
+                if not d or x['wf'] != 'r':
+                    continue
+                cl = (d['err'] if x['state'] == 'ERROR' else d['succ']) + d['comp']
+                tg = [e['to'] for e in cl if e.get('fires')]
+                if tg and all(g == 'noop' for g in tg):
+                    fired_noop = True
+            noop_only = same and fired_noop
+        out['resume_dispatched_only_noop'] = noop_only
     # the timeout timer fires on a task that is DELAYED between two retry attempts
     out['timeout_fired_during_retry_delay'] = any(
         wr['kind'] == 'tk' and wr['frm'] == 'DELAYED' and wr['to'] == 'ERROR' and st['ev']['what'] == '_fail_task_if_incomplete'
